@@ -474,6 +474,9 @@ class ModelExport:
 
                     if child_node is not None:
                         children.append(child_node)
+                case Const():
+                    # constants are inlined into their loads
+                    pass
                 case _:
                     error = f"Unexpected operation in CFG {node}"
                     raise ValueError(error)
